@@ -12,7 +12,9 @@ CHECKS = {
                 "(None = app built without that side); lemma over the contracts: for every Option<RepliconClient> at most one of 'send to the remote server' / 're-emit locally' is enabled, neither while connecting, "
                 "exactly one otherwise; each *_just_* condition is an edge detector (fires iff the stored flag records the opposite state, and stores the current one).",
         "design_ref": "DESIGN.md §4 U13, §5 C13",
-        "note": "Per-frame exclusivity only. Not covered: the cross-frame clause (an event already read and still in Bevy's double buffer when the status changes), recipient logic of resend_locally_typed, 'nothing is put on the network' (RepliconClient::send, generic Into). Res/Local are modelled as references.",
+        "note": "The proof covers per-frame exclusivity only. The cross-frame clause for the client-to-server direction (events still in Bevy's double buffer when the status changes, 'nothing is put on the network' without a connection, no panic) "
+                "is covered by a BOUNDED native stand-in (u13s: one real App, every sequence of status changes, emissions and frames to depth 6/7; labelled bounded, not counted as proved); it found two defects, both repaired. "
+                "Not covered: the server-to-client direction across frames, recipient logic of ServerEvent::resend_locally_typed, events with entity targets. Res/Local are modelled as references.",
         "technique": "contract-based deductive verification: Verus requires/ensures (incl. closure contracts) woven onto verbatim-extracted functions, plus a lemma over those contracts",
     },
     "C17": {
